@@ -532,7 +532,16 @@ def format_curie_check(cx: Cx, ob: Ob) -> None:
     fn = cx.fn(f"{CONV}.format_curie", ob.id)
     s = cx.summary(fn, ob.id)
     me = ("param", fn.self_name)
+    from ..summ import KNOWN_SIGNATURES
+    import ast as _ast
+
+    # a keyword the pinned signature did not have, with a constant default: the property speaks about calls that
+    # leave it alone (callers that do pass it are judged where they pass it)
+    sig = KNOWN_SIGNATURES.get(fn.qualname) or [p.name for p in fn.params]
+    newp = {p.name: p.default.value for p in fn.params if p.name not in sig and isinstance(p.default, _ast.Constant)}
     for t, ctx in s.returns():
+        if any(g.kind == "guard" and op(g.a) == "param" and g.a[1] in newp and bool(newp[g.a[1]]) != g.b for g in ctx.guards):
+            continue
         parts = concat_parts(t)
         ob.site(fn, f"return {show(t)[:60]}")
         want = [("param", "prefix"), ("attr", me, "delimiter"), ("param", "identifier")]
